@@ -331,6 +331,14 @@ func (h *PlaintextFormatterHook) SetCryptoKey(key []byte) error {
 // PreFormat handler adds (if necessary) "end of chain" marker to the entry in order
 // to cryptographically bound it to the integrity computation
 func (h *PlaintextFormatterHook) PreFormat(entry *log.Entry) error {
+	// text formatter writes field names as is (only values are quoted): a line feed in a name would split
+	// the entry into two lines and neither of them could be verified
+	for key, value := range entry.Data {
+		if strings.Contains(key, "\n") {
+			delete(entry.Data, key)
+			entry.Data[strings.Replace(key, "\n", `\n`, -1)] = value
+		}
+	}
 	// we add EndOfChain marker into entry in pre-format stage because it should be cryptographically bounded to the log entry
 	if entry.Message == EndOfAuditLogChainMessage {
 		entry.Data[AuditLogChainKey] = EndAuditLogChainValue
